@@ -76,10 +76,20 @@ func ReadSegStats(segkey string, qid uint64) (map[string]*structs.SegStats, erro
 	var retErr error
 	for rIdx < uint32(len(fdata)) {
 
+		// The file is not checksummed: every length read from it is checked against
+		// the bytes that are really there.
+		remaining := func() uint64 { return uint64(len(fdata)) - uint64(rIdx) }
+
 		// cnamelen
+		if remaining() < 2 {
+			return retVal, fmt.Errorf("qid=%d, ReadSegStats: truncated sst file: %v", qid, fName)
+		}
 		cnamelen := utils.BytesToUint16LittleEndian(fdata[rIdx : rIdx+2])
 		rIdx += 2
 		// actual cname
+		if remaining() < uint64(cnamelen) {
+			return retVal, fmt.Errorf("qid=%d, ReadSegStats: column name exceeds sst file: %v", qid, fName)
+		}
 		cname := string(fdata[rIdx : rIdx+uint32(cnamelen)])
 		rIdx += uint32(cnamelen)
 
@@ -88,14 +98,23 @@ func ReadSegStats(segkey string, qid uint64) (map[string]*structs.SegStats, erro
 
 		switch version {
 		case sutils.VERSION_SEGSTATS[0]:
+			if remaining() < 4 {
+				return retVal, fmt.Errorf("qid=%d, ReadSegStats: truncated sst file: %v", qid, fName)
+			}
 			sstlen = utils.BytesToUint32LittleEndian(fdata[rIdx : rIdx+4])
 			rIdx += 4
 		case sutils.VERSION_SEGSTATS_LEGACY[0]:
+			if remaining() < 2 {
+				return retVal, fmt.Errorf("qid=%d, ReadSegStats: truncated sst file: %v", qid, fName)
+			}
 			sstlen = uint32(utils.BytesToUint16LittleEndian(fdata[rIdx : rIdx+2]))
 			rIdx += 2
 		default:
-			retErr = fmt.Errorf("qid=%d, ReadSegStats: unknown version: %v", qid, version)
-			continue
+			return retVal, fmt.Errorf("qid=%d, ReadSegStats: unknown version: %v", qid, version)
+		}
+
+		if remaining() < uint64(sstlen) {
+			return retVal, fmt.Errorf("qid=%d, ReadSegStats: stats of column %v exceed sst file: %v", qid, cname, fName)
 		}
 
 		// actual sst
@@ -115,6 +134,11 @@ func readSingleSst(fdata []byte, qid uint64) (*structs.SegStats, error) {
 	sst := structs.SegStats{}
 
 	idx := uint32(0)
+
+	// version (1) + isNumeric (1) + count (8) + hll size (4)
+	if len(fdata) < 14 {
+		return nil, fmt.Errorf("qid=%d, readSingleSst: truncated stats record: %d bytes", qid, len(fdata))
+	}
 
 	// read version
 	version := fdata[idx]
@@ -138,6 +162,10 @@ func readSingleSst(fdata []byte, qid uint64) (*structs.SegStats, error) {
 		return nil, fmt.Errorf("qid=%d, readSingleSst: unknown version: %v", qid, version)
 	}
 
+	if uint64(len(fdata))-uint64(idx) < uint64(hllSize) {
+		return nil, fmt.Errorf("qid=%d, readSingleSst: hll size %d exceeds stats record", qid, hllSize)
+	}
+
 	err := sst.CreateHllFromBytes(fdata[idx : idx+hllSize])
 	if err != nil {
 		return nil, fmt.Errorf("qid=%d, readSingleSst: unable to create Hll from raw bytes. sst err: %v", qid, err)
@@ -146,7 +174,13 @@ func readSingleSst(fdata []byte, qid uint64) (*structs.SegStats, error) {
 	idx += hllSize
 
 	if sst.IsNumeric {
-		readNumericStats(&sst, fdata, idx)
+		// min, max, sum (1+8 each) + numeric count (8)
+		if uint64(len(fdata))-uint64(idx) < 35 {
+			return nil, fmt.Errorf("qid=%d, readSingleSst: truncated numeric stats", qid)
+		}
+		if err := readNumericStats(&sst, fdata, idx); err != nil {
+			return nil, fmt.Errorf("qid=%d, readSingleSst: %v", qid, err)
+		}
 		return &sst, nil
 	}
 
@@ -158,8 +192,21 @@ func readSingleSst(fdata []byte, qid uint64) (*structs.SegStats, error) {
 	return &sst, nil
 }
 
-func readNumericStats(sst *structs.SegStats, fdata []byte, idx uint32) {
+// The writer stores min, max and sum either as float64 (SS_DT_FLOAT) or as int64
+// (SS_DT_SIGNED_NUM). Any other type byte would make the value's Go type disagree with
+// its Dtype, which the aggregation code does not survive.
+func isSstNumberType(dtype sutils.SS_DTYPE) bool {
+	return dtype == sutils.SS_DT_FLOAT || dtype == sutils.SS_DT_SIGNED_NUM
+}
+
+func readNumericStats(sst *structs.SegStats, fdata []byte, idx uint32) error {
 	sst.NumStats = &structs.NumericStats{}
+
+	for _, off := range []uint32{0, 9, 18} {
+		if dtype := sutils.SS_DTYPE(fdata[idx+off]); !isSstNumberType(dtype) {
+			return fmt.Errorf("readNumericStats: invalid number type: %v", dtype)
+		}
+	}
 
 	min := sutils.CValueEnclosure{}
 	// read Min Dtype
@@ -199,9 +246,14 @@ func readNumericStats(sst *structs.SegStats, fdata []byte, idx uint32) {
 
 	// read NumericCount
 	sst.NumStats.NumericCount = utils.BytesToUint64LittleEndian(fdata[idx : idx+8])
+	return nil
 }
 
 func readNonNumericStats(sst *structs.SegStats, fdata []byte, idx uint32) error {
+	remaining := func() uint64 { return uint64(len(fdata)) - uint64(idx) }
+	if remaining() < 1 {
+		return fmt.Errorf("readNonNumericStats: truncated stats record")
+	}
 	dType := sutils.SS_DTYPE(fdata[idx : idx+1][0])
 	idx += 1
 	// dType can only be string or backfill
@@ -216,10 +268,16 @@ func readNonNumericStats(sst *structs.SegStats, fdata []byte, idx uint32) error 
 		Dtype: sutils.SS_DT_STRING,
 	}
 	// read Min length
+	if remaining() < 2 {
+		return fmt.Errorf("readNonNumericStats: truncated stats record")
+	}
 	minlen := utils.BytesToUint16LittleEndian(fdata[idx : idx+2])
 	idx += 2
 
 	// read Min string
+	if remaining() < uint64(minlen) {
+		return fmt.Errorf("readNonNumericStats: min string exceeds stats record")
+	}
 	min.CVal = string(fdata[idx : idx+uint32(minlen)])
 	sst.Min = min
 	idx += uint32(minlen)
@@ -229,10 +287,16 @@ func readNonNumericStats(sst *structs.SegStats, fdata []byte, idx uint32) error 
 	}
 
 	// read Max length
+	if remaining() < 2 {
+		return fmt.Errorf("readNonNumericStats: truncated stats record")
+	}
 	maxlen := utils.BytesToUint16LittleEndian(fdata[idx : idx+2])
 	idx += 2
 
 	// read Max string
+	if remaining() < uint64(maxlen) {
+		return fmt.Errorf("readNonNumericStats: max string exceeds stats record")
+	}
 	max.CVal = string(fdata[idx : idx+uint32(maxlen)])
 	sst.Max = max
 
